@@ -8,6 +8,7 @@ From Coq Require Import List ZArith Bool Lia.
 Import ListNotations.
 From Goat Require Import Base.Bytes Model.WireFormat Model.Transports.
 From Goat Require Import Proofs.WireFormatProofs Proofs.TransportsProofs Proofs.TransportsWireProofs.
+From Goat Require Import Model.HttpLink Proofs.HttpLinkProofs.
 Open Scope Z_scope.
 
 (* ---------- the wire format ---------- *)
@@ -240,6 +241,67 @@ Theorem C19_http_never_400_on_envelope : forall rt iv tmo now ls (s : hst rpc by
   ~ In (HEvResp q 400) (hs_log s).
 Proof. exact http_never_400_on_envelope. Qed.
 Print Assumptions C19_http_never_400_on_envelope.
+
+(* ---------- HTTP: the sending half (httpReadWriter.Write) linked to a receiving instance ---------- *)
+(* a request is answered 200 only with its delivery *)
+Theorem C19_http_200_delivered : forall (E F : Type) (dec : F -> option E) rt iv tmo now ls (s : hst E F) q,
+  h_run dec rt iv tmo now ls = Some s -> In (HEvResp q 200) (hs_log s) -> exists c r, In (HEvDeliver q c r) (hs_log s).
+Proof. exact @http_200_delivered. Qed.
+Print Assumptions C19_http_200_delivered.
+
+(* Write returned nil => its POST was handed to the peer's ServeHTTP as exactly one request (no other Write became that
+   request; the peer saw one body under that number), the body is the encoding of the envelope, unchanged; the request
+   was answered 200 and delivered, once, to a Read that returned what the body decodes to - the envelope itself when the
+   codec round-trips it. Over all label sequences of the link (Model/HttpLink.v): any number of Writes, concurrent or
+   not, lost POSTs, dropped connections, cancelled contexts, and anything at all happening to the peer. *)
+Theorem C19_http_write_nil : forall (E F : Type) (enc : E -> F) dec rt iv tmo now ls (k : link E F) w x,
+  lk_run enc dec rt iv tmo now ls = Some k -> nth_error (lk_ws k) w = Some x -> sw_res x = Some true ->
+  exists q,
+    sw_q x = Some q /\
+    (forall w' x', nth_error (lk_ws k) w' = Some x' -> sw_q x' = Some q -> w' = w) /\
+    In (HEvReq q (BBytes (enc (sw_env x)))) (hs_log (lk_peer k)) /\
+    (forall b, In (HEvReq q b) (hs_log (lk_peer k)) -> b = BBytes (enc (sw_env x))) /\
+    In (HEvResp q 200) (hs_log (lk_peer k)) /\
+    (ndeliv q (hs_log (lk_peer k)) <= 1)%nat /\
+    exists c r a e', In (HEvDeliver q c r) (hs_log (lk_peer k)) /\ In (HEvRead r (HROk e')) (hs_log (lk_peer k)) /\
+                     dec (enc (sw_env x)) = Some e' /\ rt e' = RtAddr a /\
+                     (dec (enc (sw_env x)) = Some (sw_env x) -> e' = sw_env x).
+Proof. exact @link_write_nil. Qed.
+Print Assumptions C19_http_write_nil.
+
+(* with the concrete wire format: written without error => read, equal, for every canonical envelope *)
+Theorem C19_http_write_nil_read : forall rt iv tmo now ls (k : link rpc bytes) w x,
+  lk_run encode decode rt iv tmo now ls = Some k -> nth_error (lk_ws k) w = Some x -> sw_res x = Some true ->
+  wf (sw_env x) = true -> exists r, In (HEvRead r (HROk (sw_env x))) (hs_log (lk_peer k)).
+Proof. exact link_write_nil_read. Qed.
+Print Assumptions C19_http_write_nil_read.
+
+(* write order under a single sequential writer: if Write w1 had returned nil before Write w2 was issued, the envelope
+   of w1 was delivered to a Read of the peer before the request of w2 reached the peer *)
+Theorem C19_http_write_order : forall (E F : Type) (enc : E -> F) dec rt iv tmo now ls (k : link E F) w1 w2 x1 q1 q2,
+  lk_run enc dec rt iv tmo now ls = Some k ->
+  before (SEvRet w1 true) (SEvPost w2 q2) (lk_log k) ->
+  nth_error (lk_ws k) w1 = Some x1 -> sw_q x1 = Some q1 ->
+  exists c r b, before (HEvDeliver q1 c r) (HEvReq q2 b) (hs_log (lk_peer k)).
+Proof. exact @link_write_order. Qed.
+Print Assumptions C19_http_write_order.
+
+(* the hypotheses are met: a Write, a Read of the peer, the hand-off, the answer; then a second Write *)
+Definition ex_link : option (link rpc bytes) :=
+  let e1 := mkRpc 1%N (Some (mkHeader (B"/s/m") [] (B"a") (B"srv") [] [])) None (Some (B"x")) None None in
+  let e2 := mkRpc 2%N (Some (mkHeader (B"/s/m") [] (B"a") (B"srv") [] [])) None (Some (B"y")) None None in
+  let rt := fun e : rpc => match r_header e with Some _ => RtAddr 0 | None => RtNoHeader end in
+  let k1 := lk_ext encode decode rt (lk_ext encode decode rt (lk_init 60 90 0) (LWrite e1)) (LPeer (HRead 0%nat false)) in
+  match l_peer (h_handoff 0 0) k1 with
+  | Some k2 => match l_answer 0 k2 with
+               | Some k3 => Some (lk_ext encode decode rt k3 (LWrite e2))
+               | None => None end
+  | None => None
+  end.
+Example C19_ex_link : exists k, ex_link = Some k /\
+  map sw_res (lk_ws k) = [Some true; None] /\ lk_log k = [SEvPost 0 0; SEvRet 0 true; SEvPost 1 1] /\
+  ndeliv 0 (hs_log (lk_peer k)) = 1%nat.
+Proof. eexists. split; [vm_compute; reflexivity|]. vm_compute. repeat split. Qed.
 
 (* ---------- non-vacuity ---------- *)
 Example C19_ex_wire :
